@@ -544,7 +544,7 @@ class C09(common.Prop):
                  'resolve_all()/sample(), pysmiles\' aromaticity correction entering as a recorded transcript')
     vo_deps = ['theories/Hydro/HydroCheck.vo']
     prop_file = 'theories/Properties/C09.v'
-    case_requires = ('From Coq Require Import String.\nFrom Coq Require Import List Ascii ZArith Bool Floats.\n'
+    case_requires = ('From Coq Require Import String.\nFrom Coq Require Import List Ascii ZArith Bool.\nFrom Coq Require Import Floats.PrimFloat.\n'
                      'From CGV Require Import Base.PyBase Base.PyVal Base.NxGraph Hydro.Hydrogens Hydro.HydroCheck.')
     shard = 12
     quick_cases = 150
